@@ -20,12 +20,26 @@ from ..report import Finding
 LEVEL = "other"
 
 
+def _some_guard(r):
+    """what held on the path(s) on which get_message returned Some (the gate may be spread over helpers: the facts travel with
+    the variant guards of the Option / Result values handed up)"""
+    g = r.gate
+    if isinstance(g, EnumV) and g.may("Some") and g.may("None"):
+        return g.variants["Some"][1] or {}
+    return {}
+
+
 def decision_deps(r):
     d = set()
     for p in r.gate_preds:
         if isinstance(p, BoolV) and p.val is None:
             d |= {x for x in p.deps if isinstance(x, int)}
             d |= {x[1] for x in p.deps if isinstance(x, tuple) and len(x) == 2 and x[0] == "ctl" and isinstance(x[1], int)}
+    for x in _some_guard(r).get("deps", ()):
+        if isinstance(x, int):
+            d.add(x)
+        elif isinstance(x, tuple) and len(x) == 2 and x[0] == "ctl" and isinstance(x[1], int):
+            d.add(x[1])
     return d
 
 
@@ -37,6 +51,15 @@ def syndrome_of(r):
             if isinstance(b, IntV) and b.is_const() and b.lo == 0 and isinstance(a, IntV):
                 return a
             if isinstance(a, IntV) and a.is_const() and a.lo == 0 and isinstance(b, IntV):
+                return b
+    av = getattr(r, "atom_vals", {}) or {}
+    for t, tr in _some_guard(r).get("pc", ()):
+        from ..absint.domain import show_term
+        if isinstance(t, tuple) and t and ((t[0] == "Eq" and tr) or (t[0] == "Ne" and not tr)) and show_term(t) in av:
+            a, b = av[show_term(t)]
+            if isinstance(b, IntV) and b.is_const() and b.lo == 0 and isinstance(a, IntV) and not a.is_const() and a.bits is not None:
+                return a
+            if isinstance(a, IntV) and a.is_const() and a.lo == 0 and isinstance(b, IntV) and not b.is_const() and b.bits is not None:
                 return b
     return None
 
